@@ -324,6 +324,80 @@ Proof.
   split; vm_compute; reflexivity.
 Qed.
 
+(* ================================================================================================== *)
+(* ANY NUMBER OF BLOCKS (proofs/TrackSwitchP.v).
+     tprog                 a program: a list of (track number, block)
+     render P              its tokens: TR(t1) b1 TR(t2) b2 ...
+     blocks_of t P         the blocks addressed to track t, in their order
+     grouped P             all blocks of a track concatenated under ONE track command, tracks in the order of their first
+                           appearance - the `grouped` rendering of tools/props/c12.py
+     prog_wf d steps n P   the tracks of P are below n (they exist) and below 1000, every block is a block (block_ok), the
+                           state-free step bound of the whole text is below `steps`; prog_wf_b computes it
+     nrun d steps bs s0 sf the blocks bs run one after the other from s0 to sf, each leaving the song-global registers as
+                           it found them up to the dead ones (the side condition of C12_commute_blocks, for every block;
+                           in particular no block leaves an octave-once mark pending)
+   C12_program_tracks: EVERY TRACK IS WHAT ITS OWN BLOCKS ALONE MAKE OF IT - `alone t` is the run of the blocks of track t,
+   with nothing in between, from the start state with t current; the run of the whole program gives track t of `alone t`, for
+   every t, whatever stands between two blocks of t.  Hence every rendering with the same blocks per track builds the same
+   tracks: any interleaving that keeps the order of the blocks of each track (C12_permute_program: the n-block form of
+   C12_commute_blocks), and all blocks of a track under one track command (C12_group_program). *)
+Theorem C12_program_tracks : forall (d steps : nat) (P : tprog) (s : song) (alone : nat -> song),
+  prog_wf (S d) steps (length (s_tracks s)) P -> s_octave_once s = 0 -> s_break_flag s = 0 ->
+  (forall t, (t < length (s_tracks s))%nat -> nrun (S d) steps (blocks_of t P) (s_set_cur s t) (alone t)) ->
+  exists r, exec_f (S d) steps (render P) (Ok s) = Ok r /\
+    length (s_tracks r) = length (s_tracks s) /\ globals_eq (gnorm r) (gnorm s) /\
+    s_cur r = last (map fst P) (s_cur s) /\
+    (forall t, (t < length (s_tracks s))%nat -> nth t (s_tracks r) dtrk = nth t (s_tracks (alone t)) dtrk).
+Proof. exact program_tracks. Qed.
+
+Theorem C12_permute_program : forall (d steps : nat) (P Q : tprog) (s : song) (alone : nat -> song),
+  prog_wf (S d) steps (length (s_tracks s)) P -> prog_wf (S d) steps (length (s_tracks s)) Q ->
+  (forall t, blocks_of t Q = blocks_of t P) ->
+  s_octave_once s = 0 -> s_break_flag s = 0 ->
+  (forall t, (t < length (s_tracks s))%nat -> nrun (S d) steps (blocks_of t P) (s_set_cur s t) (alone t)) ->
+  exists r1 r2, exec_f (S d) steps (render P) (Ok s) = Ok r1 /\ exec_f (S d) steps (render Q) (Ok s) = Ok r2 /\
+    s_tracks r1 = s_tracks r2 /\ globals_eq (gnorm r1) (gnorm r2) /\
+    length (s_tracks r1) = length (s_tracks s) /\
+    (forall t, (t < length (s_tracks s))%nat -> nth t (s_tracks r1) dtrk = nth t (s_tracks (alone t)) dtrk).
+Proof. exact program_permute. Qed.
+
+Theorem C12_group_program : forall (d steps : nat) (P : tprog) (s : song) (alone : nat -> song),
+  prog_wf (S d) steps (length (s_tracks s)) P -> prog_wf (S d) steps (length (s_tracks s)) (grouped P) ->
+  s_octave_once s = 0 -> s_break_flag s = 0 ->
+  (forall t, (t < length (s_tracks s))%nat -> nrun (S d) steps (blocks_of t P) (s_set_cur s t) (alone t)) ->
+  exists r1 r2, exec_f (S d) steps (render P) (Ok s) = Ok r1 /\ exec_f (S d) steps (render (grouped P)) (Ok s) = Ok r2 /\
+    s_tracks r1 = s_tracks r2 /\ globals_eq (gnorm r1) (gnorm r2) /\
+    length (s_tracks r1) = length (s_tracks s) /\
+    (forall t, (t < length (s_tracks s))%nat -> nth t (s_tracks r1) dtrk = nth t (s_tracks (alone t)) dtrk).
+Proof. exact program_grouped. Qed.
+
+Theorem C12_prog_wf_computed : forall (d steps n : nat) (P : tprog), prog_wf_b d steps n P = true -> prog_wf d steps n P.
+Proof. exact prog_wf_b_ok. Qed.
+
+(* non-vacuity: six blocks on tracks 1, 2, 4 of a six-track song; track 1 gets `c&` | `c d&` | `d Sub{a}` - a tie left open
+   at the end of its first AND of its second block, completed in the next one; track 4 a loop *)
+Definition sw_P : tprog :=
+  [(1%nat, [sw_n 0 1]); (2%nat, [sw_n 4 0; TOctave 6]); (1%nat, [sw_n 0 0; sw_n 2 1]);
+   (4%nat, [TLoopBegin 2; sw_n 5 0; TLoopEnd]); (2%nat, [sw_n 7 0]); (1%nat, [sw_n 2 0; TSub [sw_n 9 0]])].
+Definition sw_alone (t : nat) : song :=
+  match run_blocks 2 100 (blocks_of t sw_P) (Ok (s_set_cur sw_s t)) with Ok x => x | _ => sw_s end.
+Example C12_example_program :
+  prog_wf_b 2 100 6 sw_P = true /\ prog_wf_b 2 100 6 (grouped sw_P) = true /\ s_octave_once sw_s = 0 /\ s_break_flag sw_s = 0 /\
+  length (s_tracks sw_s) = 6%nat /\
+  (forall t, (t < 6)%nat -> nrun 2 100 (blocks_of t sw_P) (s_set_cur sw_s t) (sw_alone t)) /\
+  map fst (grouped sw_P) = [1; 2; 4]%nat /\ map (fun tb => length (snd tb)) (grouped sw_P) = [5; 3; 3]%nat /\
+  sw_view (exec_f 2 100 (render sw_P) (Ok sw_s))
+    = [(0, [], 0); (384, [(0, 60, 182); (192, 62, 182); (384, 69, 86)], 0); (192, [(0, 64, 86); (96, 79, 86)], 0);
+       (0, [], 0); (192, [(0, 65, 86); (96, 65, 86)], 0); (0, [], 0)] /\
+  sw_view (exec_f 2 100 (render (grouped sw_P)) (Ok sw_s)) = sw_view (exec_f 2 100 (render sw_P) (Ok sw_s)).
+Proof.
+  split; [vm_compute; reflexivity|]. split; [vm_compute; reflexivity|]. split; [reflexivity|]. split; [reflexivity|].
+  split; [reflexivity|]. split.
+  { intros t Ht. destruct t as [|[|[|[|[|[|t]]]]]]; try lia; vm_compute;
+      repeat (first [apply nrun_nil | eapply nrun_cons; [vm_compute; reflexivity|vm_compute; reflexivity|]]). }
+  split; [vm_compute; reflexivity|]. split; [vm_compute; reflexivity|]. split; vm_compute; reflexivity.
+Qed.
+
 Print Assumptions C12_default_channel.
 Print Assumptions C12_settle_octave_once.
 Print Assumptions C12_default_channel_any_order.
@@ -341,3 +415,7 @@ Print Assumptions C12_commute_blocks.
 Print Assumptions C12_switch_and_back.
 Print Assumptions C12_switch_and_back_pending.
 Print Assumptions C12_group_blocks.
+Print Assumptions C12_program_tracks.
+Print Assumptions C12_permute_program.
+Print Assumptions C12_group_program.
+Print Assumptions C12_prog_wf_computed.
